@@ -19,6 +19,7 @@ import GunYu.Proofs.BisyncUnit
 import GunYu.Proofs.BisyncTxn
 import GunYu.Proofs.BisyncCommit
 import GunYu.Props.C11
+import GunYu.Proofs.BisyncBlocks
 
 namespace GunYu.Props.C18
 open GunYu GunYu.Slot GunYu.BisyncUnit
@@ -55,7 +56,7 @@ theorem unit_single_slot (r : Resolver) (cmds : List Cmd) (u : RUnit) (cp : Byte
         have hm : k0 ∈ allKeys r (c :: cs) := by
           rw [allKeys_cons, resolvedKeys_of_ok hk]; simp
         rw [← hkeys k0 hm, C11.keyToSlot_eq_spec]
-        exact C11.hashSlotSpec_lt k0
+        exact hashSlotSpec_lt k0
   refine ⟨hslot, ?_⟩
   intro key hkey
   rcases List.mem_append.mp hkey with e | e
@@ -207,6 +208,125 @@ theorem committed_txn_accepted (cv : ClusterView) (hcov : Covered cv) (anyNode :
   unfold wire
   rw [hcc, hput]
   simp
+
+/-- … and it is the owner of the unit's slot that the batcher sends it to. -/
+theorem committed_txn_node (cv : ClusterView) (hcov : Covered cv) (anyNode : Option Nat) (cp : Bytes)
+    (k : CommitKind) (p : Payload) (cmds : List Cmd) (u : RUnit) (hcp : lbrace ∉ cp)
+    (hp : ∀ c ∈ cmds, Plain c)
+    (h : buildUnit clusterMode (resolverWith cv.getKeys) cmds = .ok u) :
+    txnPutAll cv anyNode {} (commitCmds cp k u p) =
+      .ok { node := cv.owner u.slot, slot := some u.slot, cmds := commitCmds cp k u p } := by
+  have hacc := committed_txn_accepted cv hcov anyNode cp k p cmds u hcp hp h
+  obtain ⟨hne, hrt, hkeys, htag, hcmds⟩ := (buildUnit_cluster_iff _ cmds u).mp h
+  obtain ⟨hslot, hall⟩ := unit_single_slot _ cmds u cp k p hcp h
+  have hshape := commit_cmds_shape cp k u p cv.getKeys
+  obtain ⟨c0, cs0, hcc⟩ := commitCmds_ne_nil cp k u p
+  have hplain : ∀ c ∈ c0 :: cs0, Plain c := by
+    intro c hc
+    rw [← hcc] at hc
+    rcases hshape c hc with e | ⟨e, _⟩
+    · rw [hcmds] at e; exact hp c e
+    · exact e
+  rw [hcc, txnPutAll_fresh cv hcov anyNode c0 cs0 hplain]
+  refine ⟨?_, u.slot, ?_, rfl⟩
+  · intro c hc
+    rw [← hcc] at hc
+    rcases hshape c hc with e | ⟨_, key, _, hr⟩
+    · rw [hcmds] at e; exact hrt c e
+    · exact ⟨[key], hr, by simp⟩
+  · intro key hkey
+    unfold allKeys at hkey
+    obtain ⟨c, hc, hkc⟩ := List.mem_flatMap.mp hkey
+    rw [← hcc] at hc
+    rw [C11.clusterHash_eq_spec]
+    rcases hshape c hc with e | ⟨_, ck, hck, hr⟩
+    · apply hall
+      apply List.mem_append.mpr
+      left
+      rw [unitKeys_eq]
+      exact List.mem_flatMap.mpr ⟨c, e, hkc⟩
+    · rw [resolvedKeys_of_ok hr] at hkc
+      have : key = ck := by simpa using hkc
+      rw [this]
+      exact hall ck (List.mem_append.mpr (Or.inr hck))
+
+/-- **Routable and single-slot ⇒ replayed whole.** The positive direction end
+    to end: such a command list is built into a unit AND committed as exactly
+    one MULTI … EXEC block (marker, the commands, records) by the cluster client. -/
+theorem same_slot_replayed (cv : ClusterView) (hcov : Covered cv) (anyNode : Option Nat) (cp : Bytes)
+    (k : CommitKind) (p : Payload) (cmds : List Cmd) (hcp : lbrace ∉ cp) (hne : cmds ≠ [])
+    (hp : ∀ c ∈ cmds, Plain c) (hrt : ∀ c ∈ cmds, Routable (resolverWith cv.getKeys) c)
+    (hs : ∀ k1 ∈ allKeys (resolverWith cv.getKeys) cmds, ∀ k2 ∈ allKeys (resolverWith cv.getKeys) cmds,
+      hashSlotSpec k1 = hashSlotSpec k2) :
+    ∃ u, buildUnit clusterMode (resolverWith cv.getKeys) cmds = .ok u ∧
+      replayUnit (resolverWith cv.getKeys) cv anyNode cp k p cmds =
+        some (⟨wMulti, []⟩ :: commitCmds cp k u p ++ [⟨wExec, []⟩]) := by
+  obtain ⟨u, hu, _, _⟩ := same_slot_never_refused _ cmds hne hrt hs
+  exact ⟨u, hu, committed_txn_accepted cv hcov anyNode cp k p cmds u hcp hp hu⟩
+
+/-- The builder's COMMAND GETKEYS fall-back (asked of every node, first answer
+    wins) and the cluster client's (one node) are separate calls in the code.
+    The agreement theorems hold for ANY builder fall-back `fbB` that answers
+    like the client's wherever the static tables do not resolve a command of
+    the list; where the two disagree a unit the builder accepts can be refused
+    by the client (the replay then stops, nothing of the unit is sent). -/
+theorem client_revalidation_agrees' (cv : ClusterView) (hcov : Covered cv) (anyNode : Option Nat)
+    (fbB : Bytes → List Bytes → Fb) (cmds : List Cmd) (hne : cmds ≠ []) (hp : ∀ c ∈ cmds, Plain c)
+    (hfb : ∀ c ∈ cmds, commandKeys c.name c.args = none → fbB c.name c.args = cv.getKeys c.name c.args) :
+    (∃ u, buildUnit clusterMode (resolverWith fbB) cmds = .ok u) ↔
+      (∃ t, txnPutAll cv anyNode {} cmds = .ok t ∧ t.cmds = cmds) := by
+  rw [buildUnit_congr clusterMode (resolverWith fbB) (resolverWith cv.getKeys) cmds
+    (fun c hc => resolverWith_congr fbB cv.getKeys c (hfb c hc))]
+  exact client_revalidation_agrees cv hcov anyNode cmds hne hp
+
+-- the two fall-backs disagreeing: the builder accepts `foo x`, the client refuses it
+example : buildUnit clusterMode (resolverWith (fun _ args => .keys (args.take 1))) [⟨[102,111,111], [[120]]⟩] =
+    .ok ⟨keyToSlot [120], slotTag (keyToSlot [120]), [⟨[102,111,111], [[120]]⟩]⟩ := by decide +kernel
+example : replayUnit (resolverWith (fun _ args => .keys (args.take 1)))
+    { owner := fun s => some (s / 5462), getKeys := fun _ _ => .err } (some 0) [99,112] .latest ⟨[], [], 1⟩
+    [⟨[102,111,111], [[120]]⟩] = none := by decide +kernel
+
+/-- **A refused source transaction emits nothing.** In the parser
+    (`parseAofReplayUnits`, Model/Bisync.lean): a source command or MULTI/EXEC
+    block of forwardable commands whose unit the builder refuses makes the
+    parser stop with that error having emitted NO unit for the block — the
+    transaction is buffered until EXEC and built once, never split or replayed
+    in part. -/
+theorem refused_txn_emits_nothing (pc : Bisync.PCfg) (hf : Bisync.FOK pc.filter) (b : Bisync.Block)
+    (hb : ∀ c ∈ b.body, Bisync.Fgn pc c) (hne : b.body ≠ []) (pst : Bisync.PState) (hi : Bisync.Idle pst)
+    (e : BuildErr) (herr : buildUnit pc.mode pc.resolver (b.body.map Bisync.norm) = .error e) :
+    ∃ pst', Bisync.parseBlock pc pst b = ([], pst', some (.build e)) := by
+  rcases Bisync.foreign_block pc hf b hb hne pst hi with ⟨_, _, _, _, _, _, _, hok⟩ | ⟨pst', e', h, he'⟩
+  · rw [herr] at hok; cases hok
+  · rw [herr] at he'
+    injection he' with he'
+    exact ⟨pst', by rw [he']; exact h⟩
+
+/-- **Snapshot phase.** The unit `buildBisyncRdbReplayUnit` makes for an entry
+    in cluster mode carries the slot of the TARGET key (the key after an
+    optional hash-tag replacement); when the entry's commands are all on the
+    target key, every business and control key of the committed transaction is
+    on that slot. -/
+theorem rdb_unit_single_slot (r : Resolver) (replaceHashTag : Bool) (key : Bytes) (cmds : List Cmd)
+    (cp : Bytes) (k : CommitKind) (p : Payload) (hcp : lbrace ∉ cp)
+    (hk : ∀ c ∈ cmds, ∀ x ∈ resolvedKeys r c, x = rdbTargetKey replaceHashTag key) :
+    let u := buildRdbUnit true replaceHashTag key cmds
+    u.slot = hashSlotSpec (rdbTargetKey replaceHashTag key) ∧
+    ∀ x ∈ unitKeys r u ++ controlKeys cp k u p, hashSlotSpec x = u.slot := by
+  intro u
+  have hslot : u.slot = hashSlotSpec (rdbTargetKey replaceHashTag key) := C11.keyToSlot_eq_spec _
+  refine ⟨hslot, ?_⟩
+  intro x hx
+  rcases List.mem_append.mp hx with e | e
+  · rw [unitKeys_eq] at e
+    obtain ⟨c, hc, hxc⟩ := List.mem_flatMap.mp e
+    rw [hk c hc x hxc, hslot]
+  · exact controlKeys_slot cp k u p hcp (by rw [hslot]; exact hashSlotSpec_lt _) rfl x e
+
+-- replace-hashtag moves the key to another slot; the unit follows the target key
+example : rdbTargetKey true [117,123,97,125,123,98,125] = [117,97,123,98,125] := by decide   -- "u{a}{b}" ↦ "ua{b}"
+example : (buildRdbUnit true true [117,123,97,125,123,98,125] []).slot = hashSlotSpec [98] := by decide +kernel
+example : (buildRdbUnit true false [117,123,97,125,123,98,125] []).slot = hashSlotSpec [97] := by decide +kernel
 
 /-! ### non-vacuity: concrete transactions over the regenerated tables -/
 
